@@ -1,8 +1,35 @@
-"""C02 - see Props/C02.v and monitors.monitor_c02."""
+"""C02 - see Props/C02.v, Props/C02_history.v and monitors.monitor_c02."""
+import shutil
 import brokercheck, monitors
+import vlib
+
+
+def kill_witness(res):
+    """Known finding F73, re-confirmed on the real msgstorage over the real engine on every run: an acknowledgement is
+    durable only after the store's next tick, so a kill inside the tick window brings an acknowledged message back.
+    (The model says the same: LRestart with a delete pending - Example restart_resurrects_acked in Props/C02_history.v.)"""
+    import stores_lib as sl
+    work = vlib.workdir("C02-kill")
+    try:
+        exe = sl.build()
+        hits = []
+        for eng in ("rec", "badger"):
+            line = sl.run_harness(exe, "msg", eng, lines=["A:100:1:1:61 T D:100:1:1:61 K R:61:0 DUMP"], work=work)[0]
+            c = sl.Case("msg", line)
+            if len(c.outs) >= 5 and c.outs[4].startswith("m:100:"):
+                hits.append(eng)
+        res.cov["kill_witness_F73"] = {"ops": "Add 100 (persistent, queue a); persist; Del 100; kill; recover queue a", "message_came_back_on": hits}
+        if hits:
+            res.known_finding("F73", "an acknowledgement reaches the store with the next 20 ms tick: add, tick, delete (the ack), kill, restart -> "
+                              "the acknowledged message is recovered and would be delivered again (engines: %s)" % ", ".join(hits))
+    except Exception as ex:   # the witness is an extra: its failure to run must not look like a verdict
+        res.cov["kill_witness_F73"] = {"error": str(ex)[:300]}
+    finally:
+        shutil.rmtree(work, ignore_errors=True)
 
 
 def run(res):
+    kill_witness(res)
     brokercheck.run(res, "C02", ["Props/C02.v", "Props/C02_history.v"], monitors.monitor_c02, focus="restart")
 
 
